@@ -240,7 +240,7 @@ def find_cases(edges, rng, per_feature_kinds):
     for es in by.values():
         c = es[0]["from"]["c"]
         issorted = es[0]["ev"]["args"]["sorted"]
-        builds = ["plain", "sort"] + (["sorted-as-given"] if issorted else [])
+        builds = ["plain", "sort", "replace-sorted-basic", "replace-sorted-overlay"] + (["sorted-as-given"] if issorted else [])
         for build in builds:
             for kk in rng.sample(KINDS, per_feature_kinds):
                 vk = rng.choice(KINDS)
